@@ -156,6 +156,8 @@ def stmt_pattern(s):
         return "for"
     if isinstance(s, ast.If):
         return "if"
+    if isinstance(s, ast.Return):
+        return "return"
     return None
 
 
